@@ -301,6 +301,14 @@ func CheckC09(c *Ctx) int {
 	if c.Thorough() {
 		c.ModelCheck("Freelist", "MC_Freelist_deep.cfg", 16, 60*time.Minute)
 	}
+	// unbounded counterpart of the model-checked invariants: the TLAPS proof that the contract keeps free and
+	// pending disjoint, meta-page-free and with one pending record per page, for every value of the constants
+	// (auxiliary: a proof about the specification alone never decides the verdict about the code)
+	if n, _, perr := RunTLAPS("FreelistProof", 20*time.Minute); perr == nil {
+		c.Cov["tlaps_FreelistProof"] = fmt.Sprintf("all %d obligations proved (Disjoint, NoMetaPages, one pending record per page: inductive for every MaxPage / MaxTxid / MaxRun / MaxReaders)", n)
+	} else {
+		c.Cov["tlaps_FreelistProof"] = "not re-checked in this run: " + perr.Error()
+	}
 	sims, r, err := simFLPrograms(c.Pick(300, 5000), 40, c.Seed)
 	if err != nil || len(sims) == 0 {
 		c.Infra = append(c.Infra, fmt.Sprintf("TLC produced no allocator programs: %v %s", err, Tail(r.Output, 10)))
